@@ -468,6 +468,9 @@ def C17(ctx):
     Wm.c17_r3(ctx, f)
     Wm.c17_r4(soft_if(ctx, d_opts and d_mat, "C17.R6/R7"), f)
     Wm.c17_r5(soft_if(ctx, d_mat, "C17.R7"), f)
+    # the renderer qr_svg hands the builder to is summarised above; its image frame is where option VALUES (sizes, gaps, positions
+    # from JavaScript, not validated) meet arithmetic: evaluated on the same facts for ordinary and degenerate values - no panic
+    x("c18_r2", ctx, f)
     return dict(
         level="other",
         explanation="The wasm layer is analysed as host-compiled MIR under --cfg fast_qr_verif (no wasm32 target installed; without the "
@@ -486,6 +489,8 @@ def C17(ctx):
 def C18(ctx):
     f = ctx.facts("svg")
     d_frame = x("c18_r2", ctx, f)
+    # size / gap / position reach image() through the public setters: whatever order they are called in (C14.P7 on this builder)
+    Pp.c14_p7(ctx, f, rid="C18.P7")
     S.c18_t1(ctx, f)
     S.c18_r1(soft_if(ctx, d_frame, "C18.R2"), f)
     return dict(
